@@ -67,6 +67,9 @@ func fieldLoad(v ssa.Value) (*types.Var, ssa.Value, bool) {
 }
 
 func checkC13(p *Program, r *Report) {
+	// round 6 (systematic): no unguarded mutable package-level state behind this property's functions (§2.9)
+	sharedStateRule(p, r, NewEffects(p), "C13.shared", []string{"gcs/gcs.go"})
+	r.Floor("C13.shared", 0)
 	r.Explain = "C13.pipeline: every keyed-hash call in package gcs (builder and the three query strategies) feeds its result, unmodified, into the same " +
 		"range-reduction function together with the high and low 32-bit halves of the same modulus field, and the reduced value is only ever " +
 		"appended, compared or used as a map key. C13.width: no 64-bit set value (reduced hash, decoded delta, or sum of deltas) is narrowed by a " +
